@@ -472,6 +472,9 @@ impl World {
         if y == "bad" {
             return "channel: [unclosed".to_string();
         }
+        if let Some(h) = y.strip_prefix("raw:") {
+            return String::from_utf8_lossy(&hex::decode(h).unwrap_or_default()).replace('\0', " ");
+        }
         let f: Vec<&str> = y.split(':').collect();
         let mut m = serde_yaml::Mapping::new();
         m.insert("app_id".into(), str_tok(f[1]).into());
@@ -571,6 +574,29 @@ impl World {
             ["setart", n, b] => {
                 std::fs::create_dir_all(pdir(n)).unwrap();
                 std::fs::write(pdir(n).join("dlc.vmcode"), self.blob(b)).unwrap();
+            }
+            ["rawpj", b] => {
+                std::fs::write(self.storage.join("patches_state.json"), self.blob(b)).unwrap();
+            }
+            ["rawsj", b] => {
+                std::fs::write(self.storage.join("state.json"), self.blob(b)).unwrap();
+            }
+            ["artisfile", n] => {
+                let _ = std::fs::remove_dir_all(pdir(n));
+                std::fs::create_dir_all(self.storage.join("patches")).unwrap();
+                std::fs::write(pdir(n), b"not a directory").unwrap();
+            }
+            ["artfileisdir", n] => {
+                let _ = std::fs::remove_dir_all(pdir(n));
+                std::fs::create_dir_all(pdir(n).join("dlc.vmcode")).unwrap();
+            }
+            ["patchesisfile"] => {
+                let _ = std::fs::remove_dir_all(self.storage.join("patches"));
+                std::fs::write(self.storage.join("patches"), b"x").unwrap();
+            }
+            ["pjisdir"] => {
+                let _ = std::fs::remove_file(self.storage.join("patches_state.json"));
+                std::fs::create_dir_all(self.storage.join("patches_state.json")).unwrap();
             }
             ["junk"] => {
                 std::fs::create_dir_all(self.storage.join("patches").join("junk")).unwrap();
